@@ -638,6 +638,19 @@ func (g *Gen) evalQuant(x *EQuant, env *Env) Val {
 	sub := env.with(nil)
 	for _, b := range x.Vars {
 		t := g.resolveType(env, b.Type)
+		if st, isSlice := t.Underlying().(*types.Slice); isSlice && b.Lo == nil {
+			// a slice-typed bound variable: quantify over its backing array, offset, length and capacity
+			_ = st
+			base := fmt.Sprintf("%s!d%d", b.Name, g.inQuant)
+			an, on, ln, cn := quote(base+"#arr"), quote(base+"#off"), quote(base+"#len"), quote(base+"#cap")
+			binders = append(binders, "("+an+" Int)", "("+on+" "+g.idxSort()+")", "("+ln+" "+g.idxSort()+")", "("+cn+" "+g.idxSort()+")")
+			v := Val{K: kSlice, T: t, Arr: an, Off: on, Len: ln, Cap: cn}
+			vars[b.Name] = v
+			sub.vars[b.Name] = v
+			zero := g.idxConst(0)
+			guards = append(guards, g.idxLe(zero, on), g.idxLe(zero, ln), g.idxLe(ln, cn))
+			continue
+		}
 		if isComposite(t) {
 			panic(contractErr("bound variable %s of composite type", b.Name))
 		}
